@@ -19,6 +19,7 @@ type World struct {
 	SliceDT  *smt.Datatype
 	Str      smt.Sort
 	Iface    smt.Sort
+	seqUsed  bool // a specification mentions seqkind/seqfinal/...: literal escape sequences get their structure facts
 	strLits  map[string]*smt.Term
 	strOrder []string
 	typeIDs  map[string]int
@@ -235,6 +236,10 @@ func (w *World) StrFacts(used map[string]bool) []*smt.Term {
 		}
 		lits = append(lits, t)
 		out = append(out, w.C.Eq(w.C.App("str_len", smt.Int, t), w.C.IntLit(int64(len(v)))))
+		if w.seqUsed && len(v) >= 2 && v[0] == 0x1b {
+			// the structure of a literal escape sequence (only when a specification uses the seq* functions)
+			out = append(out, w.seqFacts(t, parseSeqShape(v), nil)...)
+		}
 		if len(v) <= 8 {
 			for i := 0; i < len(v); i++ {
 				out = append(out, w.C.Eq(w.C.App("str_at", smt.Int, t, w.C.IntLit(int64(i))), w.C.IntLit(int64(v[i]))))
